@@ -76,3 +76,13 @@ contract(f'{CF}::Vacuum.__init__', props=('C08',),
 contract(f'{CF}::Vacuum.update_density_ratio', props=('C08',),
          params=dict(self=Obj(C.Vacuum, _density_ratio=Real(), _t0=Real(), _p0=Real(), _humidity=Real())),
          ensures=[('no-op', 'self._density_ratio == old(self._density_ratio)')], modifies=[])
+
+
+# history: the prediction after a humidity change is that of the station's *current* state (no stale value)
+from pyvc.contract import REGISTRY  # noqa: E402
+_g = REGISTRY[f'{CF}::Atmo.get_density_factor_and_mach_for_altitude']
+contract('verif:contracts/specfn.py::query_set_humidity_query', props=('C08', 'C10'),
+         params=dict(atmo=atmo_shape(_t0=Real(lo=-90, hi=60), _p0=Real(lo=150, hi=1100), _density_ratio=Real(lo=0)),
+                     h1=Real(lo=-2000, hi=40000), hum=Real(lo=0, hi=100), h2=Real(lo=-2000, hi=40000)),
+         ensures=[(cl.label, cl.src.replace('self.', 'atmo.').replace('altitude', 'h2')) for cl in _g.ensures],
+         modifies=['atmo._humidity', 'atmo._density_ratio', 'atmo._density_k'])
